@@ -5,6 +5,7 @@ package blockservice
 
 import (
 	"context"
+	"fmt"
 	"io"
 	"sync"
 
@@ -273,6 +274,10 @@ func getBlock(ctx context.Context, c cid.Cid, bs BlockService, fetchFactory func
 	if err != nil {
 		return nil, err
 	}
+	if !blk.Cid().Equals(c) {
+		// never cache or return a block other than the requested (and validated) one
+		return nil, fmt.Errorf("exchange returned block %s instead of requested %s", blk.Cid(), c)
+	}
 	// also write in the blockstore for caching, inform the exchange that the block is available
 	err = blockstore.Put(ctx, blk)
 	if err != nil {
@@ -360,6 +365,11 @@ func getBlocks(ctx context.Context, ks []cid.Cid, blockservice BlockService, fet
 			return
 		}
 
+		wanted := make(map[cid.Cid]struct{}, len(misses))
+		for _, c := range misses {
+			wanted[c] = struct{}{}
+		}
+
 		ex := blockservice.Exchange()
 		var cache [1]blocks.Block // preallocate once for all iterations
 		for {
@@ -372,6 +382,12 @@ func getBlocks(ctx context.Context, ks []cid.Cid, blockservice BlockService, fet
 				b = v
 			case <-ctx.Done():
 				return
+			}
+
+			if _, ok := wanted[b.Cid()]; !ok {
+				// never cache or emit a block that was not requested (its CID was not validated either)
+				logger.Errorf("exchange returned unrequested block %s, dropping it", b.Cid())
+				continue
 			}
 
 			// write in the blockstore for caching
